@@ -1,7 +1,7 @@
 (* C16 driver: the model of the two Graphviz printers, the DOT reader and the prescribed graph.
 
-   dotdfa <pinned|patched> <base> <dfa>            -> (ok "text") | (panic "site") | (outoffuel)
-   dotregex <pinned|patched> <regex-stage-payload> -> (ok "text") | (panic ..) | (outoffuel)
+   dotdfa <old|current|patched|(v e sa d0 rx)> <base> <dfa>            -> (ok "text") | (panic "site") | (outoffuel)
+   dotregex <old|current|patched> <regex-stage-payload> -> (ok "text") | (panic ..) | (outoffuel)
    dotread "text"                                  -> (graph ...) | (readfail)
    dotjudgedfa <base> <dfa> "text"                 -> (readfail) | (ok) | (diff (header b) (nodesextra ..) (nodesmissing ..)
                                                         (edgesextra ..) (edgesmissing ..) (clusters b))
@@ -30,7 +30,8 @@ let cdfa_of (v : t) : Dfa.cdfa =
 
 let variant_of (v : t) : Dot.variant =
   match v with
-  | Atom "pinned" -> Dot.pinned
+  | Atom "old" -> Dot.old
+  | Atom "current" -> Dot.current
   | Atom "patched" -> Dot.patched
   (* (v esc subacc dead0 rxesc): each flag true = patched behaviour for that mechanism only *)
   | List [Atom "v"; Atom e; Atom sa; Atom d0; Atom rx] ->
@@ -173,7 +174,8 @@ let judge_dfa_text base c (text : (unit, char list) Prelude.outcome) : t =
   | _ -> Atom "nomodel"
 
 let () =
-  (* dotclassdfa <base> <dfa> -> (known labels subacc phantom) (fix esc) (fix subacc) (fix both) *)
+  (* dotclassdfa <base> <dfa> -> (known labels subacc phantom) and how the model is judged with none / each / both of
+     the fixes of commit 0e66d33: (old r) (esc r) (subacc r) (both r) -- diagnostic information for the replay file *)
   register "dotclassdfa" (fun v ->
       match v with
       | List [base; d] ->
@@ -182,10 +184,10 @@ let () =
                            v_dead0 = true; v_rx_escape = (fun x -> x) } in
           let j e sa = judge_dfa_text base c (Dot.of_dfa_with (var e sa) base c) in
           List [List [Atom "known"; b (Dot.known_labels c); b (Dot.known_subacc base c); b (Dot.known_phantom c)];
-                List [Atom "pinned"; j false false]; List [Atom "esc"; j true false];
+                List [Atom "old"; j false false]; List [Atom "esc"; j true false];
                 List [Atom "subacc"; j false true]; List [Atom "both"; j true true]]
       | _ -> raise (Shape "dotclassdfa args"));
-  (* dotclassregex <payload> -> (known b) (pinned r) (fixed r) *)
+  (* dotclassregex <payload> -> (known b) (old r) (fixed r) *)
   register "dotclassregex" (fun v ->
       match v with
       | List [payload] ->
@@ -200,13 +202,13 @@ let () =
                      if DotSpec.regex_missing g (List.map (fun (i, x) -> (i, items x)) pool) (items r) = []
                         && g.DotRead.g_directed then Atom "ok" else Atom "missing")
             | _ -> Atom "nomodel" in
-          List [List [Atom "known"; b (Dot.known_rx_all pool r)]; List [Atom "pinned"; j Dot.pinned];
+          List [List [Atom "known"; b (Dot.known_rx_all pool r)]; List [Atom "old"; j Dot.old];
                 List [Atom "fixed"; j Dot.patched]]
       | _ -> raise (Shape "dotclassregex args"));
-  (* dotwf <dfa> -> true | false : the hypothesis of the C16 theorems *)
+  (* dotwf <dfa> -> true | false : the hypotheses (wf_cdfa, starts_at_zero) of the C16 theorems *)
   register "dotwf" (fun v ->
       match v with
-      | List [d] -> b (Dot.wf_cdfa (cdfa_of d))
+      | List [d] -> let c = cdfa_of d in b (Dot.wf_cdfa c && Dot.starts_at_zero c)
       | _ -> raise (Shape "dotwf args"));
   (* dotrxwf <payload> -> true | false : the hypotheses (rx_wf_b, rx_total_b) of the C16 regex theorems *)
   register "dotrxwf" (fun v ->
